@@ -325,6 +325,7 @@ class Server(object):
             self.ehlo_as = None
             self.have_mailfrom = None
             self.have_rcptto = None
+            self.authed = False
             self.extensions.drop('STARTTLS')
 
     def _command_AUTH(self, arg):
